@@ -146,6 +146,15 @@ func rulesC06(c *Ctx) {
 						if h.IsField(e, unp) {
 							return boolTri(newp)
 						}
+						// the table is about requests: the request handed to handle exists (a defensive nil test of a parameter
+						// is not one of the gate's decisions)
+						if x, testsNil, ok := NilTest(e); ok {
+							for _, p := range h.Params() {
+								if h.ObjOf(x) == types.Object(p) {
+									return boolTri(!testsNil)
+								}
+							}
+						}
 						if x, y, op, ok := binaryCmp(e); ok && (op == token.EQL || op == token.NEQ) {
 							var k ast.Expr
 							if h.IsField(x, methodF) {
@@ -468,6 +477,27 @@ func rulesC06(c *Ctx) {
 						continue
 					}
 					okV = !og.ReachAssuming(gs)[og.VertexOf(litParentCall(w.f))]
+				}
+				// ... and after every other refusal too: once the metadata is adopted the request goes to its handler. No
+				// return that refuses the request (an error result, before the dispatch) can follow the adoption; otherwise
+				// a request that is answered "method not found" has already opened the gate for the next one
+				av := og.VertexOf(litParentCall(w.f))
+				var dispatchV []int
+				if hr := c.FnObj(pM, "", "handleReceive"); hr != nil {
+					dispatchV = og.callVertices(hr)
+				}
+				c.Must(len(dispatchV) > 0, key+":dispatch-found", root, nil, "handle dispatches through handleReceive")
+				if len(dispatchV) > 0 && av >= 0 {
+					after := og.ReachableFromAvoiding(av, dispatchV[0])
+					okNoRefusal := true
+					var bad ast.Node
+					for _, r := range root.Returns() {
+						if len(r.Results) == 2 && !isNilIdent(r.Results[1]) && after[og.VertexOf(r)] {
+							okNoRefusal = false
+							bad = r
+						}
+					}
+					c.Check(okNoRefusal, key+":no-refusal-after-adoption", root, bad, "between the adoption of the request's metadata and the dispatch to the handler no return refuses the request: a refused request leaves the session's phase as it was")
 				}
 				c.Check(okV, key+":after-version-gate", w.f, w.n, "the session adopts the request's metadata only after the unsupported-version test has passed (guards: %s); otherwise a request answered -32022 still flips the session to initialized", atomsString(ogd))
 			case "(*Server).discover":
